@@ -17,13 +17,18 @@
 (***************************************************************************)
 EXTENDS TrBase
 
-VARIABLES own, dying, foreign, dups
-vars == <<l, viols, own, dying, foreign, dups>>
+VARIABLES own, dying, foreign, dups, recent
+vars == <<l, viols, own, dying, foreign, dups, recent>>
+\* recent[g]: the numbers the loop running on goroutine g has closed (el.close) since its last wait returned
 \* (eventfds are added to their poller before the poller's creation is logged: see p.ctl.AddRead below)
 
-Init == /\ l = 1 /\ viols = <<>> /\ own = Empty /\ dying = Empty /\ foreign = {} /\ dups = {}
+Init == /\ l = 1 /\ viols = <<>> /\ own = Empty /\ dying = Empty /\ foreign = {} /\ dups = {} /\ recent = Empty
         /\ TLCSet(1, 1) /\ TLCSet(2, <<>>)
-Step(o2, dy2, f2, d2, vs) == /\ l' = l + 1 /\ own' = o2 /\ dying' = dy2 /\ foreign' = f2 /\ dups' = d2 /\ viols' = vs /\ Mark
+NextRecent == LET e == Ev IN
+    IF e.ev = "Sys" /\ e.site = "el.close" THEN Put(recent, e.g, Get(recent, e.g, {}) \cup {e.fd})
+    ELSE IF e.ev = "Hook" /\ e.site = "p.woke" THEN Put(recent, e.g, {})
+    ELSE IF e.ev = "Reset" THEN Empty ELSE recent
+Step(o2, dy2, f2, d2, vs) == /\ recent' = NextRecent /\ l' = l + 1 /\ own' = o2 /\ dying' = dy2 /\ foreign' = f2 /\ dups' = d2 /\ viols' = vs /\ Mark
 Same(vs) == Step(own, dying, foreign, dups, vs)
 Del(f, k) == [x \in DOMAIN f \ {k} |-> f[x]]
 
@@ -81,6 +86,13 @@ Step1 ==
               Same(Check(\E j \in (l + 1)..(IF l + 12 < Len(Trace) THEN l + 12 ELSE Len(Trace)) :
                              Trace[j].ev = "Sys" /\ Trace[j].site = "p.open" /\ Trace[j].n = e.fd,
                          "PollOnlyOwnedFd", <<e.site, e.fd>>, viols))
+         \* StaleDelete, a deliberate deviation of the code: when two connections of a loop are reported by the same wait and
+         \* the callback of the first closes the second, the loop still holds an event for the closed number; finding no
+         \* connection under it, it asks epoll to forget the number.  The number is not the framework's any more (it may
+         \* be anybody's by now), but close(2) has already removed the registration, the kernel answers ENOENT and
+         \* nothing is changed: no descriptor is read, written, polled or closed.  Allowed exactly there -- a number this
+         \* very loop has closed since its last wait returned; any other epoll_ctl on a number that is not owned is not.
+         [] e.ev = "Sys" /\ e.site = "p.ctl.Delete" /\ e.fd \notin DOMAIN own /\ e.fd \in Get(recent, e.g, {}) -> Same(viols)
          [] e.ev = "Sys" /\ e.site \in {"p.ctl.AddRead", "p.ctl.AddWrite", "p.ctl.AddReadWrite", "p.ctl.ModRead", "p.ctl.ModReadWrite", "p.ctl.Delete"} ->
               Same(Check(e.fd \in DOMAIN own, "PollOnlyOwnedFd", <<e.site, e.fd, Get(dying, e.fd, "none")>>, viols))
          \* ---- close: exactly once, by the owner
@@ -127,5 +139,5 @@ Step1 ==
                          <<"/proc/self/fd", e.leaked, e.what, e.sockfiles, pendingReg>>, viols))
          [] OTHER -> Same(viols)
 
-Next == Step1 \/ FinishWith(<<own, dying, foreign, dups>>)
+Next == Step1 \/ FinishWith(<<own, dying, foreign, dups, recent>>)
 =============================================================================
